@@ -4,7 +4,7 @@ and (re)builds the detection matrix: for every seeded change, apply it to a scra
 its property (and related ones) against that worktree through VERIF_REPO, remove the worktree.  /repo itself is never touched."""
 import json, os, shutil, subprocess, sys
 
-SRCS = [("/tmp/seeded", 1), ("/tmp/seeded2", 2), ("/tmp/seeded3", 3), ("/tmp/seeded4", 4), ("/tmp/seeded5", 5), ("/tmp/seeded6", 6), ("/tmp/seeded7", 7), ("/tmp/seeded8", 8), ("/tmp/seeded9", 9), ("/tmp/seeded10", 10)]
+SRCS = [("/tmp/seeded", 1), ("/tmp/seeded2", 2), ("/tmp/seeded3", 3), ("/tmp/seeded4", 4), ("/tmp/seeded5", 5), ("/tmp/seeded6", 6), ("/tmp/seeded7", 7), ("/tmp/seeded8", 8), ("/tmp/seeded9", 9), ("/tmp/seeded10", 10), ("/tmp/seeded11", 11)]
 VERIF = os.path.dirname(os.path.dirname(os.path.abspath(__file__)))
 DST = os.path.join(VERIF, "seeded")
 RELATED = {"C02": ["C14"], "C03": ["C02", "C14"], "C14": ["C02"], "C10": ["C09", "C04", "C14"], "C18": ["C08"], "C08": [], "C07": ["C08", "C02"], "C09": ["C14", "C04", "C17"], "C11": ["C12"], "C12": ["C13"], "C13": ["C12"]}
@@ -198,6 +198,15 @@ STRENGTHENED = {
     "C15-release-error-deferred-to-close": "missed at first; the client-role runs gained a peer that stops reading (connection_lost never comes)",
     "C16-host-lowercase-table-misses-z": "missed at first; the host alphabet gained every upper-case letter behind a percent-escape",
     "C17-wkc-shared-site-visited": "missed at first; C17 gained one Site object mounted under several prefixes",
+    "C03-mtype-kwarg-replaces-tuning": "missed at first; C03 gained the CON created with the deprecated mtype keyword next to its tuning",
+    "C03-promoted-held-back-drops-rest": "harness fault at first (the set-up of the queued scenario insisted on the CON being sent; C14 reported the change); C03 now reports a held-back CON that never gets onto the wire",
+    "C09-error-stopper-late-binding": "missed at first; C09 gained a transport error for one peer while the other peer's slow requests are under way (every order of two and three requests)",
+    "C09-inherited-handler-table": "missed at first; C09 gained resource classes derived from one another, requested in every order of two (and some of three) requests",
+    "C12-failed-open-unlocks": "missed at first; C12 gained histories over one context directory (open, waiting open, request, replay, clean stop, garbage collection); the filelock stand-in now locks files (inodes), not names",
+    "C12-load-before-lock": "missed at first; same family: an open that waits for the holder, who meanwhile accepts a request and stops cleanly",
+    "C15-empty-skips-option-parse": "missed at first; the frame alphabet gained Empty messages with a broken option area",
+    "C15-large-frame-payload-marker-presplit": "missed at first; the big frames (and a 5000-byte one) carry an option value with a 0xFF byte",
+    "C19-shared-block-buffer-across-executor-reads": "harness fault at first (a handler that uses the loop's executor never finished on the virtual loop); executor jobs are now callbacks under the scheduler's control, and C19 gained block requests handed to the server in the same pass",
     "C02-cancelled-request-error-aborts-fanout": "missed at first; C02 gained a request withdrawn in the loop pass in which a Reset or a transport error for it is read",
     "C06-block2-szx7-cap-breaks-slicing": "missed at first; C06 gained requests that ask for the (reserved) size exponent 7",
     "C08-direct-send-forgets-held-back": "missed at first; C08 gained registrations whose notifications are partly confirmable and partly non-confirmable",
